@@ -30,3 +30,17 @@ def c19_empty_sparse_innerprod_any_operand(fam, case, verdict):
         return False
     what = getattr(verdict, "what", "") or ""
     return what.startswith("unsupported-operand|sptensor.innerprod|")
+
+
+@matcher
+def c19_sumtensor_parts_untyped(fam, case, verdict):
+    """The `sumtensor` constructor compares only `tensors[0].shape` with the shapes of the later parts and never
+    looks at the type of a part: a single part of ANY type (`sumtensor(['a'])`) and a later part of any type that
+    has a fitting `.shape` (an ndarray, a tenmat, another sumtensor) are accepted, whereas `sumtensor + part`
+    refuses them.  Matches only: unsupported / sumtensor constructor / the call was answered."""
+    if fam != "unsupported" or not isinstance(case, dict):
+        return False
+    if case.get("cls") != "sumtensor" or not str(case.get("method", "")).startswith("__init__:"):
+        return False
+    what = getattr(verdict, "what", "") or ""
+    return what.startswith("unsupported-operand|sumtensor.__init__:")
